@@ -25,17 +25,31 @@ theorem wakeNext_inf (p : Pool) (hv : p.sem.value = .inf) (hw : p.sem.waiters = 
   unfold Sem.wakeNext
   simp [hv, hw, wakeNextL]
 
-theorem roomGranted_good {cap : Cap} {L : Bool} (p : Pool) (m : Nat) (r : Req) (hph : PhaseOK p) (hreg : RegOK p)
-    (hgrp : GroupsOK p) (hlife : LifeOK p) (hpre : SlotPre cap p) (hst : Strict L p) : Good cap L (p.roomGranted m r) := by
-  unfold roomGranted
-  simp only
-  apply good_continueSpawner
+theorem reqsLen_createTask (p : Pool) (m : Nat) (isMap : Bool) : (p.createTask m isMap).reqs.length = p.reqs.length := by
+  unfold createTask
+  simp [emitRef, modReq]
+
+theorem wakeNext_mapFrame (p : Pool) :
+    MapFrame p (({ p with sem := p.sem.wakeNext.1 } : Pool).schedOpt p.sem.wakeNext.2) :=
+  (MapFrame.of_tasks p ({ p with sem := p.sem.wakeNext.1 } : Pool) rfl rfl (fun t tk' h => ⟨tk', h, rfl, rfl⟩)).trans
+    (tame_schedOpt _ _).mapFrame
+
+/-- `acquire()` returned in `_start_task`: the task is created; `k` = the map slot the spawner carried (1 for a map
+request, 0 otherwise) is now in flight and goes to the new task -/
+theorem roomGranted_tail {cap : Cap} {L : Bool} (p : Pool) (m : Nat) (isMap : Bool) (hph : PhaseOK p) (hreg : RegOK p)
+    (hgrp : GroupsOK p) (hlife : LifeOK p) (hpre : SlotPre cap p) (hst : Strict L p)
+    (hmap : MapMid p m (if isMap then 1 else 0)) (hlt : m < p.reqs.length) :
+    Good cap L (((if (!p.sem.value.isZero) = true then (({ p with sem := p.sem.wakeNext.1 } : Pool).schedOpt p.sem.wakeNext.2) else p).createTask m
+      isMap).continueSpawner m) := by
   split
   · rename_i hz
     have h3 := wakeNext_tasks p
     obtain ⟨r1, r2, r3, r4⟩ := wakeNext_regs p
-    refine good_createTask_afterTake _ m _ ?_ (hreg.of_eq h3 r1 r2 r3 r4) (hgrp.of_eq (by simp) (by rw [h3]))
-      (hlife.of_eq h3 r4) ?_ (hst.of_eq r4 (wakeNext_apis p))
+    have hlt' : m < (({ p with sem := p.sem.wakeNext.1 } : Pool).schedOpt p.sem.wakeNext.2).reqs.length :=
+      Nat.lt_of_lt_of_le hlt (wakeNext_mapFrame p).rql
+    refine good_continueSpawner _ m ⟨good0_createTask_afterTake _ m _ ?_ (hreg.of_eq h3 r1 r2 r3 r4)
+      (hgrp.of_eq (by simp) (by rw [h3])) (hlife.of_eq h3 r4) ?_ (hst.of_eq r4 (wakeNext_apis p)),
+      mapOK_createTask isMap ((wakeNext_mapFrame p).mid hmap hlt) hlt'⟩ (by rw [reqsLen_createTask]; exact hlt')
     · intro i tk h hn; rw [h3] at h; exact hph i tk h hn
     · cases cap with
       | fin n =>
@@ -47,7 +61,31 @@ theorem roomGranted_good {cap : Cap} {L : Bool} (p : Pool) (m : Nat) (r : Req) (
         obtain ⟨v', h1, h2, _⟩ := wakeNext_effect p v hv hpos
         exact ⟨v', h1, by rw [h3]; omega⟩
       | inf => exact wakeNext_inf p hpre.1 hpre.2
-  · exact good_createTask_afterTake p m _ hph hreg hgrp hlife hpre hst
+  · exact good_continueSpawner _ m ⟨good0_createTask_afterTake p m _ hph hreg hgrp hlife hpre hst,
+      mapOK_createTask isMap hmap hlt⟩ (by rw [reqsLen_createTask]; exact hlt)
+
+theorem roomGranted_good {cap : Cap} {L : Bool} (p : Pool) (m : Nat) (r : Req) (hph : PhaseOK p) (hreg : RegOK p)
+    (hgrp : GroupsOK p) (hlife : LifeOK p) (hpre : SlotPre cap p) (hst : Strict L p)
+    (hmap : MapOK p) (hlt : m < p.reqs.length)
+    (hfr : ReqAt p m (fun x => x.frame = .waitRoom ∧ x.kind = r.kind)) : Good cap L (p.roomGranted m r) := by
+  unfold roomGranted
+  simp only
+  refine roomGranted_tail (p.modReq m fun x => { x with frame := MFrame.running }) m (r.kind == .map) hph
+    (hreg.of_eq rfl rfl rfl rfl rfl) (hgrp.of_eq rfl rfl) (hlife.of_eq rfl rfl) hpre hst ?_ (by simpa [modReq] using hlt)
+  -- the ghost frame: the map slot a map spawner carried is now in flight
+  refine (hmap.mid m).modReq _ _ ?_ (fun _ => rfl) (fun _ _ _ _ hf => by cases hf)
+  intro x v hx hv
+  refine ⟨v, hv, ?_⟩
+  have hp : Req.pend { x with frame := MFrame.running } = 0 := by simp [Req.pend]
+  have hw : ({ x with frame := MFrame.running } : Req).mapSem.waiters = x.mapSem.waiters := rfl
+  rw [hp, hw]
+  obtain ⟨hf, hk⟩ := hfr x hx
+  by_cases hkm : r.kind = .map
+  · have hacq := hmap.acq m x hx (hk.trans hkm) hf
+    have hpx : x.pend = 1 := by simp [Req.pend, hk.trans hkm, hacq, hf]
+    rw [hpx]; simp [hkm]
+  · have : (r.kind == ReqKind.map) = false := by simpa using hkm
+    simp [this]; omega
 
 /-- slot conservation while a removed waiter entry may still carry a granted slot -/
 def SlotGrant (cap : Cap) (p : Pool) (st : Option WaitSt) : Prop :=
@@ -56,19 +94,76 @@ def SlotGrant (cap : Cap) (p : Pool) (st : Option WaitSt) : Prop :=
       v + heldL p.tasks + (grantsL p.sem.waiters + (if st = some .granted then 1 else 0)) = n
   | .inf => p.sem.value = .inf ∧ p.sem.waiters = []
 
+theorem reqAt_schedOpt {p : Pool} {m : Nat} {P : Req → Prop} (h : ReqAt p m P) (o : Option Nat)
+    (hP : ∀ x, P x → P { x with sched := true }) : ReqAt (p.schedOpt o) m P := by
+  cases o with
+  | none => exact h
+  | some w =>
+    intro r hr
+    simp only [schedOpt, schedMeta, emitRef, modReq] at hr
+    obtain ⟨x, hx, rfl⟩ := getElem?_modify_some p.reqs w m _ r hr
+    split
+    · exact hP x (h x hx)
+    · exact h x hx
+
+theorem reqAt_releasePool {p : Pool} {m : Nat} {P : Req → Prop} (h : ReqAt p m P)
+    (hP : ∀ x, P x → P { x with sched := true }) : ReqAt p.releasePool m P := by
+  unfold releasePool
+  exact reqAt_schedOpt (p := ({ p with sem := p.sem.release.1 } : Pool)) h _ hP
+
+theorem reqAt_releaseMap {p : Pool} {m : Nat} {P : Req → Prop} (h : ReqAt p m P)
+    (hP : ∀ x, P x → P { x with sched := true }) (hS : ∀ x s, P x → P { x with mapSem := s }) :
+    ReqAt (p.releaseMap m) m P := by
+  unfold releaseMap
+  split
+  · exact h
+  · exact reqAt_schedOpt (h.modReq _ (fun x hx => hS x _ hx)) _ hP
+
+/-- a spawner that ends while it carries a map slot it has just handed back: the books balance again -/
+theorem mapOK_finishMeta_carried {p : Pool} {m : Nat} (o : Outcome) (h : MapMid p m (-1))
+    (hat : ReqAt p m (fun x => x.pend = 1)) : MapOK (p.finishMeta m o) := by
+  unfold finishMeta
+  split
+  · rename_i hn
+    refine ⟨h.ref, ?_, h.acq⟩
+    intro m' r hr
+    obtain ⟨v, hv, hs⟩ := h.le m' r hr
+    have : m' ≠ m := by intro e; subst e; rw [hn] at hr; cases hr
+    simp only [this, if_false] at hs
+    exact ⟨v, hv, by omega⟩
+  · rename_i r hr
+    refine Tame.map (tame_emitChildren _ _) ?_
+    refine MapMid.ok (m := m) (k := 0) ?_
+    refine h.modReq _ 0 ?_ (fun _ => rfl) (fun _ _ _ _ hf => by cases hf)
+    intro x v hx hv
+    refine ⟨v, hv, ?_⟩
+    have hp : Req.pend { x with frame := MFrame.done, outcome := some (if (o == Outcome.ok && r.mustCancel) = true then Outcome.cancelled else o), sched := false, mustCancel := false } = 0 := by
+      simp [Req.pend]
+    have hw : ({ x with frame := MFrame.done, outcome := some (if (o == Outcome.ok && r.mustCancel) = true then Outcome.cancelled else o), sched := false, mustCancel := false } : Req).mapSem.waiters = x.mapSem.waiters := rfl
+    rw [hp, hw, hat x hx]; omega
+
+/-- `CancelledError` inside `_enough_room.acquire()`: a granted pool slot goes back, and so does the map slot a map
+spawner carried -/
 theorem roomWaitCancelled_good {cap : Cap} {L : Bool} (p : Pool) (m : Nat) (r : Req) (st : Option WaitSt) (hph : PhaseOK p)
-    (hreg : RegOK p) (hgrp : GroupsOK p) (hlife : LifeOK p) (hsg : SlotGrant cap p st) (hst' : Strict L p) :
+    (hreg : RegOK p) (hgrp : GroupsOK p) (hlife : LifeOK p) (hsg : SlotGrant cap p st) (hst' : Strict L p)
+    (hmap : MapOK p) (hlt : m < p.reqs.length)
+    (hfr : ReqAt p m (fun x => x.frame = .waitRoom ∧ x.kind = r.kind ∧ x.acquired = r.acquired)) :
     Good cap L (p.roomWaitCancelled m r st) := by
   unfold roomWaitCancelled
   simp only
-  have key : Good cap L (if (st == some WaitSt.granted) = true then p.releasePool else p) := by
+  have key : Good cap L (if (st == some WaitSt.granted) = true then p.releasePool else p) ∧
+      ReqAt (if (st == some WaitSt.granted) = true then p.releasePool else p) m
+        (fun x => x.frame = .waitRoom ∧ x.kind = r.kind ∧ x.acquired = r.acquired) ∧
+      m < (if (st == some WaitSt.granted) = true then p.releasePool else p).reqs.length := by
     split
     · rename_i h
       have hst : st = some .granted := by simpa using h
       have h3 := releasePool_tasks' p
       obtain ⟨r1, r2, r3, r4⟩ := releasePool_regs p
-      refine ⟨?_, ?_, hreg.of_eq h3 r1 r2 r3 r4, hgrp.of_eq (releasePool_groups p) (by rw [h3]), hlife.of_eq h3 r4,
-        (hst'.of_eq r4 (releasePool_apis p)).1, (hst'.of_eq r4 (releasePool_apis p)).2⟩
+      refine ⟨⟨⟨?_, ?_, hreg.of_eq h3 r1 r2 r3 r4, hgrp.of_eq (releasePool_groups p) (by rw [h3]), hlife.of_eq h3 r4,
+        (hst'.of_eq r4 (releasePool_apis p)).1, (hst'.of_eq r4 (releasePool_apis p)).2⟩,
+        (mapFrame_releasePool p).map hmap⟩, reqAt_releasePool hfr (fun _ h => h),
+        Nat.lt_of_lt_of_le hlt (mapFrame_releasePool p).rql⟩
       · cases cap with
         | fin n =>
           obtain ⟨v, hv, hs⟩ := hsg
@@ -79,18 +174,28 @@ theorem roomWaitCancelled_good {cap : Cap} {L : Bool} (p : Pool) (m : Nat) (r : 
       · intro i tk h hn; rw [h3] at h; exact hph i tk h hn
     · rename_i h
       have hst : ¬ st = some .granted := by simpa using h
-      refine ⟨?_, hph, hreg, hgrp, hlife, hst'.1, hst'.2⟩
+      refine ⟨⟨⟨?_, hph, hreg, hgrp, hlife, hst'.1, hst'.2⟩, hmap⟩, hfr, hlt⟩
       cases cap with
       | fin n =>
         obtain ⟨v, hv, hs⟩ := hsg
         exact ⟨v, hv, by simp [hst] at hs; omega⟩
       | inf => exact hsg
-  refine (tame_finishMeta _ m _).good ?_
+  obtain ⟨kg, kat, klt⟩ := key
   split
-  · exact (tame_releaseMap _ m).good key
-  · exact key
+  · rename_i hc
+    have hkm : r.kind = .map ∧ r.acquired = true := by simpa using hc
+    refine ⟨(Tame0.trans (tame0_releaseMap _ m) (tame_finishMeta _ m _).toTame0).good0 kg.toGood0, ?_⟩
+    refine mapOK_finishMeta_carried _ (mapMid_releaseMap (k := -1) (kg.map.mid m) klt) ?_
+    refine reqAt_releaseMap ?_ (fun _ h => h) (fun _ _ h => h)
+    intro x hx
+    obtain ⟨a, b, c⟩ := kat x hx
+    simp [Req.pend, a, b.trans hkm.1, c.trans hkm.2]
+  · exact (tame_finishMeta _ m _).good kg
 
-theorem good_wakeWaitRoom {cap : Cap} {L : Bool} (p : Pool) (m : Nat) (r : Req) (hg : Good cap L p) : Good cap L (p.wakeWaitRoom m r) := by
+theorem good_wakeWaitRoom {cap : Cap} {L : Bool} (p : Pool) (m : Nat) (r : Req) (hg : Good cap L p)
+    (hlt : m < p.reqs.length)
+    (hfr : ReqAt p m (fun x => x.frame = .waitRoom ∧ x.kind = r.kind ∧ x.acquired = r.acquired)) :
+    Good cap L (p.wakeWaitRoom m r) := by
   unfold wakeWaitRoom
   simp only
   have hrm := removeWaiterL_grants m p.sem.waiters
@@ -105,8 +210,16 @@ theorem good_wakeWaitRoom {cap : Cap} {L : Bool} (p : Pool) (m : Nat) (r : Req) 
       fun x => { x with mustCancel := false }) := hg.life.of_eq rfl rfl
   have hstr : Strict L (({ p with sem := { p.sem with waiters := (removeWaiterL m p.sem.waiters).2 } } : Pool).modReq m
       fun x => { x with mustCancel := false }) := hg.strict
+  have hmp : MapOK (({ p with sem := { p.sem with waiters := (removeWaiterL m p.sem.waiters).2 } } : Pool).modReq m
+      fun x => { x with mustCancel := false }) :=
+    (tame_modReq _ m _).map (hg.map.of_eq rfl rfl)
+  have hlt2 : m < (({ p with sem := { p.sem with waiters := (removeWaiterL m p.sem.waiters).2 } } : Pool).modReq m
+      fun x => { x with mustCancel := false }).reqs.length := by simpa [modReq] using hlt
+  have hfr2 : ReqAt (({ p with sem := { p.sem with waiters := (removeWaiterL m p.sem.waiters).2 } } : Pool).modReq m
+      fun x => { x with mustCancel := false }) m (fun x => x.frame = .waitRoom ∧ x.kind = r.kind ∧ x.acquired = r.acquired) :=
+    ReqAt.modReq (p := ({ p with sem := { p.sem with waiters := (removeWaiterL m p.sem.waiters).2 } } : Pool)) hfr _ (fun _ h => h)
   split
-  · refine roomWaitCancelled_good _ m r _ hph hreg hgrp hlife ?_ hstr
+  · refine roomWaitCancelled_good _ m r _ hph hreg hgrp hlife ?_ hstr hmp hlt2 hfr2
     cases cap with
     | fin n =>
       obtain ⟨v, hv, hs⟩ := hg.slot
@@ -117,7 +230,7 @@ theorem good_wakeWaitRoom {cap : Cap} {L : Bool} (p : Pool) (m : Nat) (r : Req) 
   · split
     · rename_i hgr
       have hst : (removeWaiterL m p.sem.waiters).1 = some .granted := by simpa using hgr
-      refine roomGranted_good _ m r hph hreg hgrp hlife ?_ hstr
+      refine roomGranted_good _ m r hph hreg hgrp hlife ?_ hstr hmp hlt2 (fun x hx => ⟨(hfr2 x hx).1, (hfr2 x hx).2.1⟩)
       cases cap with
       | fin n =>
         obtain ⟨v, hv, hs⟩ := hg.slot
@@ -127,7 +240,7 @@ theorem good_wakeWaitRoom {cap : Cap} {L : Bool} (p : Pool) (m : Nat) (r : Req) 
       exact ⟨hv, by simp [modReq, hw, removeWaiterL]⟩
     · rename_i hc hgr
       have hst : ¬ (removeWaiterL m p.sem.waiters).1 = some .granted := by simpa using hgr
-      refine ⟨?_, hph, hreg, hgrp, hlife, hstr.1, hstr.2⟩
+      refine ⟨⟨?_, hph, hreg, hgrp, hlife, hstr.1, hstr.2⟩, hmp⟩
       cases cap with
       | fin n =>
         obtain ⟨v, hv, hs⟩ := hg.slot
@@ -136,46 +249,98 @@ theorem good_wakeWaitRoom {cap : Cap} {L : Bool} (p : Pool) (m : Nat) (r : Req) 
       obtain ⟨hv, hw⟩ := hg.slot
       exact ⟨hv, by simp [modReq, hw, removeWaiterL]⟩
 
-theorem good_mapSemGranted {cap : Cap} {L : Bool} (p : Pool) (m : Nat) (r : Req) (hg : Good cap L p) : Good cap L (p.mapSemGranted m r) := by
+/-- the call's own semaphore handed the spawner a slot: it is in flight until the task is created or the spawner
+starts waiting for room -/
+theorem good_mapSemGranted {cap : Cap} {L : Bool} (p : Pool) (m : Nat) (r : Req) (hg : Good0 cap L p)
+    (hmap : MapMid p m 1) (hlt : m < p.reqs.length) : Good cap L (p.mapSemGranted m r) := by
   unfold mapSemGranted
   simp only
-  have h := good_mapStartTask (p.modReq m fun x => { x with acquired := true }) m ((tame_modReq p m _).good hg)
+  have hg1 : Good0 cap L (p.modReq m fun x => { x with acquired := true, frame := MFrame.running }) :=
+    (tame0_modReq p m _).good0 hg
+  have hm1 : MapMid (p.modReq m fun x => { x with acquired := true, frame := MFrame.running }) m 1 := by
+    refine hmap.modReq _ 1 ?_ (fun _ => rfl) (fun _ _ _ _ hf => by cases hf)
+    intro x v hx hv
+    refine ⟨v, hv, ?_⟩
+    have hp : Req.pend { x with acquired := true, frame := MFrame.running } = 0 := by simp [Req.pend]
+    have hw : ({ x with acquired := true, frame := MFrame.running } : Req).mapSem.waiters = x.mapSem.waiters := rfl
+    rw [hp, hw]; omega
+  have hlt1 : m < (p.modReq m fun x => { x with acquired := true, frame := MFrame.running }).reqs.length := by
+    simpa [modReq] using hlt
+  obtain ⟨h, hle⟩ := good_mapStartTask _ m hg1 hm1 hlt1 (reqAt_modReq_new _ m _ _ (fun _ => rfl))
   split
-  · exact good_mapLoop m _ _ h
+  · exact good_mapLoop m _ _ h (Nat.lt_of_lt_of_le hlt1 hle)
   · exact h
 
-theorem good_wakeWaitMapSem {cap : Cap} {L : Bool} (p : Pool) (m : Nat) (r : Req) (hg : Good cap L p) : Good cap L (p.wakeWaitMapSem m r) := by
+theorem good_wakeWaitMapSem {cap : Cap} {L : Bool} (p : Pool) (m : Nat) (r : Req) (hg : Good cap L p)
+    (hlt : m < p.reqs.length) (hat : ReqAt p m (fun x => x.mapSem.waiters = r.mapSem.waiters)) :
+    Good cap L (p.wakeWaitMapSem m r) := by
   unfold wakeWaitMapSem
   simp only
-  have hg0 := (tame_modReq p m (fun x => { x with mapSem := { x.mapSem with waiters := (removeWaiterL m r.mapSem.waiters).2 }, mustCancel := false })).good hg
+  have hg0 : Good0 cap L (p.modReq m fun x => { x with mapSem := { x.mapSem with waiters := (removeWaiterL m r.mapSem.waiters).2 }, mustCancel := false }) :=
+    (tame0_modReq p m _).good0 hg.toGood0
+  have hrm := removeWaiterL_grants m r.mapSem.waiters
+  have hm0 : MapMid (p.modReq m fun x => { x with mapSem := { x.mapSem with waiters := (removeWaiterL m r.mapSem.waiters).2 }, mustCancel := false }) m
+      (if (removeWaiterL m r.mapSem.waiters).1 = some .granted then 1 else 0) := by
+    refine (hg.map.mid m).modReq _ _ ?_ (fun _ => rfl) (fun _ _ ha => ha)
+    intro x v hx hv
+    refine ⟨v, hv, ?_⟩
+    have hp : Req.pend { x with mapSem := { x.mapSem with waiters := (removeWaiterL m r.mapSem.waiters).2 }, mustCancel := false } = x.pend := rfl
+    have hw : ({ x with mapSem := { x.mapSem with waiters := (removeWaiterL m r.mapSem.waiters).2 }, mustCancel := false } : Req).mapSem.waiters = (removeWaiterL m r.mapSem.waiters).2 := rfl
+    rw [hp, hw, hat x hx]
+    split <;> rename_i hgr <;> simp [hgr] at hrm <;> omega
+  have hlt0 : m < (p.modReq m fun x => { x with mapSem := { x.mapSem with waiters := (removeWaiterL m r.mapSem.waiters).2 }, mustCancel := false }).reqs.length := by
+    simpa [modReq] using hlt
   split
   · refine (tame_finishMeta _ m _).good ?_
     split
-    · exact (tame_releaseMap _ m).good hg0
-    · exact hg0
+    · rename_i hgr
+      have hst : (removeWaiterL m r.mapSem.waiters).1 = some .granted := by simpa using hgr
+      rw [if_pos hst] at hm0
+      exact ⟨(tame0_releaseMap _ m).good0 hg0, (mapMid_releaseMap (k := 0) hm0 hlt0).ok⟩
+    · rename_i hgr
+      have hst : ¬ (removeWaiterL m r.mapSem.waiters).1 = some .granted := by simpa using hgr
+      rw [if_neg hst] at hm0
+      exact ⟨hg0, hm0.ok⟩
   · split
-    · exact good_mapSemGranted _ m r hg0
-    · exact hg0
+    · rename_i hgr
+      have hst : (removeWaiterL m r.mapSem.waiters).1 = some .granted := by simpa using hgr
+      rw [if_pos hst] at hm0
+      exact good_mapSemGranted _ m r hg0 hm0 hlt0
+    · rename_i hgr
+      have hst : ¬ (removeWaiterL m r.mapSem.waiters).1 = some .granted := by simpa using hgr
+      rw [if_neg hst] at hm0
+      exact ⟨hg0, hm0.ok⟩
 
 theorem good_stepMeta {cap : Cap} {L : Bool} (p : Pool) (m : Nat) (hg : Good cap L p) : Good cap L (p.stepMeta m) := by
   unfold stepMeta
   split
   · exact hg
   · rename_i r hr
+    have hlt : m < p.reqs.length := (List.getElem?_eq_some_iff.mp hr).1
     split
     · exact hg
     · simp only
       have hg0 := (tame_modReq p m (fun x => { x with sched := false })).good hg
+      have hlt0 : m < (p.modReq m fun x => { x with sched := false }).reqs.length := by simpa [modReq] using hlt
+      have hat : ∀ P : Req → Prop, P { r with sched := false } → ReqAt (p.modReq m fun x => { x with sched := false }) m P := by
+        intro P hP x hx
+        simp only [modReq] at hx
+        obtain ⟨y, hy, rfl⟩ := getElem?_modify_some p.reqs m m _ x hx
+        rw [hr] at hy; cases hy
+        simpa using hP
       split
+      · exact hg0
       · exact hg0
       · unfold stepMetaNotStarted
         split
         · exact (tame_finishMeta _ m _).good hg0
         · split
-          · exact good_applyLoop m _ _ hg0
-          · exact good_mapLoop m _ _ hg0
-      · exact good_wakeWaitRoom _ m r hg0
-      · exact good_wakeWaitMapSem _ m r hg0
+          · rename_i hk
+            exact good_applyLoop m _ _ hg0 (hat _ hk) hlt0
+          · exact good_mapLoop m _ _ hg0 hlt0
+      · rename_i hf
+        exact good_wakeWaitRoom _ m r hg0 hlt0 (hat _ ⟨hf, rfl, rfl⟩)
+      · exact good_wakeWaitMapSem _ m r hg0 hlt0 (hat _ rfl)
 
 /-! ### gather, flush, gather_and_close, until_closed: no slot moves -/
 
@@ -215,8 +380,8 @@ theorem good_flushAfter2 {cap : Cap} (p : Pool) (a o) (hg : Good cap true p) : G
   split
   · simp only
     refine (tame_finishApi _ a _).good ?_
-    refine ⟨hg.slot, hg.phase, ?_, hg.grp.of_eq rfl rfl, hg.life.lostMono rfl (fun h => by simp [h]),
-      fun h => Bool.noConfusion h, fun h => Bool.noConfusion h⟩
+    refine ⟨⟨hg.slot, hg.phase, ?_, hg.grp.of_eq rfl rfl, hg.life.lostMono rfl (fun h => by simp [h]),
+      fun h => Bool.noConfusion h, fun h => Bool.noConfusion h⟩, hg.map.of_eq rfl rfl⟩
     exact hg.reg.flushForget _ _ _ rfl rfl rfl rfl (by simp)
   · exact (tame_finishApi p a _).good hg
 
@@ -226,7 +391,7 @@ theorem good_flushAfter1 {cap : Cap} (p : Pool) (a re o) (hg : Good cap true p) 
   · exact (tame_finishApi p a _).good hg
   · simp only
     have h1 : Tame p ({ p with metaCancelled := [], reqs := p.reqs.map fun (r : Req) => { r with inCancelled := false } } : Pool) :=
-      tame_of_eq _ _ rfl rfl
+      tame_of_map _ _ _ rfl rfl rfl (fun x => ⟨rfl, rfl, rfl, Nat.le_refl _, fun h => h⟩)
     split
     · refine good_flushAfter2 _ a _ ?_
       refine Tame.good (Tame.trans (Tame.trans h1 (tame_modApi _ a _)) (tame_gatherStart _ _ _ _ _)) hg
@@ -237,7 +402,7 @@ theorem good_flushStage1 {cap : Cap} (p : Pool) (a re) (hg : Good cap true p) : 
   unfold flushStage1
   simp only
   have h1 : Tame p ({ p with reqs := p.reqs.map fun (r : Req) => if r.inRunning && r.outcome.isSome then { r with inRunning := false } else r } : Pool) :=
-    tame_of_eq _ _ rfl rfl
+    tame_of_map _ _ _ rfl rfl rfl (fun x => by split <;> exact ⟨rfl, rfl, rfl, Nat.le_refl _, fun h => h⟩)
   split
   · exact good_flushAfter1 _ a re _ ((Tame.trans h1 (tame_gatherStart _ _ _ _ _)).good hg)
   · exact (Tame.trans (Tame.trans h1 (tame_gatherStart _ _ _ _ _)) (tame_modApi _ a _)).good hg
@@ -248,8 +413,9 @@ theorem good_gacAfter2 {cap : Cap} (p : Pool) (a o) (hg : Good cap true p) : Goo
   · simp only
     refine (tame_finishApi _ a _).good ?_
     refine (tame_foldl _ _ (fun p w => tame_schedApi p w) _).good ?_
-    exact ⟨hg.slot, hg.phase, hg.reg.gacClear _ rfl rfl rfl rfl rfl, hg.grp.of_eq rfl rfl,
-      hg.life.lostMono rfl (fun h => by simp [h]), fun h => Bool.noConfusion h, fun h => Bool.noConfusion h⟩
+    exact ⟨⟨hg.slot, hg.phase, hg.reg.gacClear _ rfl rfl rfl rfl rfl, hg.grp.of_eq rfl rfl,
+      hg.life.lostMono rfl (fun h => by simp [h]), fun h => Bool.noConfusion h, fun h => Bool.noConfusion h⟩,
+      hg.map.of_eq rfl rfl⟩
   · exact (tame_finishApi p a _).good hg
 
 theorem good_gacAfter1 {cap : Cap} (p : Pool) (a re g) (hg : Good cap true p) : Good cap true (p.gacAfter1 a re g) := by
@@ -258,7 +424,7 @@ theorem good_gacAfter1 {cap : Cap} (p : Pool) (a re g) (hg : Good cap true p) : 
   split
   · exact (tame_finishApi p a _).good hg
   · have h1 : Tame p ({ p with metaCancelled := [], reqs := p.reqs.map fun (r : Req) => { r with inCancelled := false, inRunning := false } } : Pool) :=
-      tame_of_eq _ _ rfl rfl
+      tame_of_map _ _ _ rfl rfl rfl (fun x => ⟨rfl, rfl, rfl, Nat.le_refl _, fun h => h⟩)
     split
     · exact good_gacAfter2 _ a _ ((Tame.trans h1 (tame_gatherStart _ _ _ _ _)).good hg)
     · exact (Tame.trans (Tame.trans h1 (tame_gatherStart _ _ _ _ _)) (tame_modApi _ a _)).good hg
@@ -310,8 +476,8 @@ theorem good_runRef {cap : Cap} {L : Bool} (p : Pool) (r : Ref) (hg : Good cap L
 
 /-- registering a `flush` / `gather_and_close` / `until_closed` call: only in the non-strict variant -/
 theorem good_addApi {cap : Cap} (p : Pool) (k) (hg : Good cap true p) : Good cap true (p.addApi k) :=
-  ⟨hg.slot, hg.phase, hg.reg.of_eq rfl rfl rfl rfl rfl, hg.grp.of_eq rfl rfl, hg.life.of_eq rfl rfl,
-    fun h => Bool.noConfusion h, fun h => Bool.noConfusion h⟩
+  ⟨⟨hg.slot, hg.phase, hg.reg.of_eq rfl rfl rfl rfl rfl, hg.grp.of_eq rfl rfl, hg.life.of_eq rfl rfl,
+    fun h => Bool.noConfusion h, fun h => Bool.noConfusion h⟩, hg.map.of_eq rfl rfl⟩
 
 theorem tame_doGate (p : Pool) (t o) : Tame p (p.doGate t o).1 := by
   unfold doGate
